@@ -54,6 +54,7 @@ class FnC:
         self.note = note
         self.impl_args = impl_args
         self.inherits = inherits      # the shim trait method carries an ensures this body must meet
+        self.canary = False
 
 
 class Sel:
@@ -533,9 +534,10 @@ def splice_fn(em, toks, fn, fc, ctx, marks):
             spec.append('\n    requires')
             for r in fc.requires:
                 spec.append('\n        ' + r.strip().rstrip(',') + ',')
-        if fc.ensures:
+        ens = list(fc.ensures)
+        if ens:
             spec.append('\n    ensures')
-            for c in fc.ensures:
+            for c in ens:
                 cid = '%s#%s' % (ctx, c.name)
                 marks.append({'id': cid, 'fn': ctx, 'clause': c.name, 'props': list(c.props), 'text': c.text})
                 spec.append('\n        /*@c:%s*/ %s,' % (cid, c.text))
@@ -544,6 +546,22 @@ def splice_fn(em, toks, fn, fc, ctx, marks):
             spec.append('\n    ' + fc.extra_spec)
         if spec:
             ins(hend, ''.join(spec) + '\n')
+        if fn.body and not fc.external_body and fc.canary:
+            # vacuity canary: `assert(false)` that must FAIL.  Placed at the end of the body, or before
+            # a tail expression (an `ensures false` would instead leak into the callers' context).
+            st = R.split_stmts(toks, fn.body[0] + 1, fn.body[1])
+            if not st:
+                cidx = fn.body[1]
+            else:
+                last = st[-1]
+                lt = toks[last[1] - 1].text
+                first = toks[last[0]].text
+                if lt == ';' or (lt == '}' and first in R.BLOCK_KW):
+                    cidx = fn.body[1]
+                else:
+                    cidx = last[0]
+            marks.append({'id': '%s#__canary' % ctx, 'fn': ctx, 'clause': '__canary', 'props': [], 'text': 'assert(false)', 'canary': True})
+            ins(cidx, '\n/*@k:%s*/ assert(false);\n' % ctx)
         if fn.body and not fc.external_body:
             for addr, text in fc.stmts.items():
                 idx = resolve_addr(toks, fn.body, addr)
